@@ -34,7 +34,7 @@ static int process_data(xfrm_stream_t *stream, const void *in, sqfs_u32 in_size,
 			int flush_mode)
 {
 	xfrm_stream_bzip2_t *bzip2 = (xfrm_stream_bzip2_t *)stream;
-	sqfs_u32 diff;
+	sqfs_u32 diff, out_diff;
 	int ret;
 
 	if (!bzip2->initialized) {
@@ -54,7 +54,8 @@ static int process_data(xfrm_stream_t *stream, const void *in, sqfs_u32 in_size,
 	if (flush_mode < 0 || flush_mode >= XFRM_STREAM_FLUSH_COUNT)
 		flush_mode = XFRM_STREAM_FLUSH_NONE;
 
-	while (in_size > 0 && out_size > 0) {
+	while ((in_size > 0 || flush_mode == XFRM_STREAM_FLUSH_FULL) &&
+	       out_size > 0) {
 		bzip2->strm.next_in = (char *)in;
 		bzip2->strm.avail_in = in_size;
 
@@ -79,10 +80,10 @@ static int process_data(xfrm_stream_t *stream, const void *in, sqfs_u32 in_size,
 		in_size -= diff;
 		*in_read += diff;
 
-		diff = (out_size - bzip2->strm.avail_out);
-		out = (char *)out + diff;
-		out_size -= diff;
-		*out_written += diff;
+		out_diff = (out_size - bzip2->strm.avail_out);
+		out = (char *)out + out_diff;
+		out_size -= out_diff;
+		*out_written += out_diff;
 
 		if (ret == BZ_STREAM_END) {
 			if (bzip2->compress) {
@@ -93,6 +94,19 @@ static int process_data(xfrm_stream_t *stream, const void *in, sqfs_u32 in_size,
 
 			bzip2->initialized = false;
 			return XFRM_STREAM_END;
+		}
+
+		if (diff == 0 && out_diff == 0) {
+			/* no more input will come, there is room for output,
+			   but we are still in the middle of a stream */
+			if (!bzip2->compress && in_size == 0 &&
+			    flush_mode == XFRM_STREAM_FLUSH_FULL &&
+			    (bzip2->strm.total_in_lo32 > 0 ||
+			     bzip2->strm.total_in_hi32 > 0)) {
+				return XFRM_STREAM_ERROR;
+			}
+
+			return XFRM_STREAM_BUFFER_FULL;
 		}
 	}
 
